@@ -744,6 +744,8 @@ class tensor:
                 assert False, "Inner product must be between tensors of the same size"
             x = np.reshape(self.data, (self.data.size,), order=self.order)
             y = np.reshape(other.data, (other.data.size,), order=self.order)
+            if x.dtype == bool and y.dtype == bool:
+                x = x.astype(int)
             return x.dot(y).item()
         if isinstance(other, (ttb.ktensor, ttb.sptensor, ttb.ttensor)):
             # Reverse arguments and call specializer code
